@@ -276,6 +276,18 @@ Fixpoint ctl_assigns (ppt : layout) (ms : members_t) (st : triples) (l : list (t
               end
   end.
 
+(* the assign loop of balance(): `for partition in unassigned_partitions: if no potential
+   consumer: continue; _assign_partition(partition)` *)
+Fixpoint assign_loop (ppt : layout) (ms : members_t) (st : triples) (xs : list tp) : triples :=
+  match xs with
+  | [] => st
+  | x :: r =>
+    match owner st x, least_loaded st (potentials ppt ms x) with
+    | None, Some c => assign_loop ppt ms (st ++ [(c, x)]) r
+    | _, _ => assign_loop ppt ms st r
+    end
+  end.
+
 (* after the assign loop every partition with a potential consumer is owned *)
 Definition complete_b (ppt : layout) (ms : members_t) (st : triples) : bool :=
   forallb (fun x => match potentials ppt ms x with
